@@ -43,6 +43,7 @@ def checksum_total(ctx, rule='C12.checksum-total'):
         if fn is None:
             res.append(unresolved(rule, feeder))
             continue
+        fn = ctx.x(fn)       # a nested `feed(&mut hasher, bytes)` helper is part of the checksum function
         du = ctx.du(fn)
         fed = set()
         nwrites = 0
@@ -293,9 +294,17 @@ def header_views_confined(ctx, rule='C12.header-views-confined'):
     allowed |= {g for g in F.reachable_fns([hdr]) if g is not hdr and c03._only_via(F, g, hdr)}
     if init is not None:
         allowed |= {g for g in F.reachable_fns([init]) if g is not init and c03._only_via(F, g, init)}
+    # (judged on the paths of transactions: begin, commit, open, destructors; a diagnostic dump of raw headers is nobody's snapshot)
+    roots = [x for x in (ctx.A.get('begin-role'), ctx.A.get('Tx::commit'), ctx.A.get('OpenOptions::open'), F.fn('DB::tx')) if x is not None]
+    roots += [g for g in F.fns if g.trait and g.trait.endswith('Drop') and g.name == 'drop']
+    on_path = set()
+    for r in roots:
+        on_path |= set(F.reachable_fns([r]))
     n = 0
     for fn in sorted(F.fns, key=lambda g: g.path):
         owner = (fn.owner or fn) if fn.kind == 'Closure' else fn
+        if owner not in on_path:
+            continue
         for v in views:
             for bb, t, c in calls_to_fn(F, fn, v):
                 n += 1
